@@ -10,7 +10,9 @@ _MODULES = {
     "C06": ("scen_api", "C06"),
     "C07": ("scen_fs", "C07"),
     "C13": ("scen_api", "C13"),
+    "C14": ("scen_fs", "C14"),
     "C16": ("scen_c16", "C16"),
+    "C19": ("scen_fs", "C19"),
     "C17": ("scen_c17", "C17"),
 }
 
